@@ -295,11 +295,23 @@ func (w *world) closure(root digest.Digest) [][]byte {
 // from the Tree but known from elsewhere is found depends on the cache
 // (either outcome presents the directory the digest names).
 func (w *world) genTree(root dirInfo, allowIncomplete bool) digest.Digest {
-	msgs := w.closure(root.d)
+	// The root need not be stored as a Directory of its own (a Tree
+	// carries it); its descendants are taken from the CAS. Unless
+	// allowIncomplete, the Tree contains every descendant that exists, so
+	// that what a tree child look-up finds does not depend on the cache.
 	rootBytes := root.data
 	var children [][]byte
-	if len(msgs) > 0 {
-		children = msgs[1:]
+	seen := map[string]bool{key(root.d): true}
+	if r := describeDirectory(w.ids, w.df, rootBytes); r.State == "ok" {
+		for _, c := range r.dirDigests {
+			for _, m := range w.closure(c) {
+				k := key(digestOf(w.df, m))
+				if !seen[k] {
+					seen[k] = true
+					children = append(children, m)
+				}
+			}
+		}
 	}
 	if allowIncomplete && len(children) > 0 && w.r.Intn(3) == 0 {
 		k := w.r.Intn(len(children))
